@@ -17,7 +17,9 @@ RULE = ('thorough: every byte string of length 0..3 over 0..255 (16,843,009 stri
         'from_hex over randomly spaced / malformed hex text. Oracle: independent single-message recogniser: accepted => '
         'bytes() reproduces the input and equals the reference decoding; rejected => ValueError (TypeError or ValueError '
         'for non-integer items); any other outcome is a violation. Non-trivial = first item is a defined status byte; '
-        'distinct by item tuple (by construction for enumerations).')
+        'distinct by item tuple (by construction for enumerations).'
+        ' Later additions: typed arrays and cast memoryviews as sequences; from_hex(text, sep=S) for 23 separators'
+        ' including regex-special characters, judged like the byte list.')
 ASSUMPTIONS = ['generators/iterators are not passed: the statement quantifies over sequences',
                'bool items are not generated (whether they are "integers" is not stated)']
 
